@@ -134,6 +134,11 @@ def make_recorders(case, plan, log, ids, repl_objs):
     # gamma: the dispatching recorder is a SUBCLASS of an application visitor class that has already been used on its own
     # (class hierarchies of visitors are the documented way to share behaviour): the subclass' hooks are the ones that count
     Disp = type("Disp", (_disp_base(ns),), ns)
+    if case.get("sparse"):
+        # gamma: an application visitor that only implements the hooks of SOME node kinds (the usual way DispatchingVisitor is
+        # used), derived directly from the library class: it sees exactly the events of those kinds, wherever the nodes sit
+        keep = {"enter_" + _snake(k) for k in case["sparse"]} | {"leave_" + _snake(k) for k in case["sparse"]}
+        Disp = type("SparseDisp", (V.DispatchingVisitor,), {k: v for k, v in ns.items() if k == "__init__" or k in keep})
     m = case["m"]
     inst = {v: (Disp if (case["disp"] and v % 2 == 1) else Plain)(v) for v in set(case["vis"])}
     if m == 1:
@@ -279,6 +284,8 @@ def _worker(args):
             out.setdefault(("C18", "visit/raises/%s/%s" % (r[1].split("(")[0], acts)), ["visitor raises", dict(wit, error=r[1])])
             continue
         _, log, res, lo = r
+        if case["disp"] and case["m"] == 1 and not case.get("sparse"):
+            _sparse_run(out, case, plan, b, wit)
         if lo is not None:      # the leave-only member has no enter events
             b = dict(b, ev=[e for e in b["ev"] if not (e[0] == "enter" and e[2] == lo)], evd=[e for e in b["evd"] if not (e[0] == "enter" and e[2] == lo)])
         if log == b["ev"] and res == b["res"]:
@@ -290,6 +297,32 @@ def _worker(args):
                 out.setdefault(("C18", "visit/deviation/unattributed"), ["differs from the ideal semantics but no single deviation explains it", wit])
             continue
         # neither the ideal nor the known-deviation semantics explains the run
+        _diverge(out, case, plan, b, log, res, wit)
+    return out, n
+
+
+def _sparse_run(out, case, plan, b, wit):
+    """The same plan on a DispatchingVisitor subclass that implements only the hooks of the kinds the plan edits plus one more
+    kind of the tree: its log is the specification's log restricted to those kinds, the resulting tree is the same."""
+    kinds = sorted({nd["k"] for nd in case["nodes"][:case["n"]]})
+    watch = {_kind(case, i) for (i, a, v) in plan} | {kinds[(b["cid"] + len(plan) + len(b["ev"])) % len(kinds)]}
+    r = run_case(dict(case, sparse=sorted(watch)), plan)
+    wit = dict(wit, sparse_hooks=sorted(watch))
+    acts = ",".join(sorted({"%s:%s" % (a, _kind(case, i)) for (i, a, v) in plan})) or "noop"
+    if r[0] == "exc":
+        out.setdefault(("C18", "visit/sparse/raises/%s/%s" % (r[1].split("(")[0], acts)), ["visitor raises", dict(wit, error=r[1])])
+        return
+    _, log, res, lo = r
+
+    def only(ev):
+        return [e for e in ev if _kind(case, e[1]) in watch]
+    if (log == only(b["ev"]) and res == b["res"]) or (log == only(b["evd"]) and res == b["resd"]):
+        return
+    _diverge(out, case, plan, dict(b, evd=only(b["evd"])), log, res, wit, prefix="visit/sparse")
+
+
+def _diverge(out, case, plan, b, log, res, wit, prefix="visit"):
+    if True:
         pl = {i: a for (i, a, v) in plan}
 
         def rel(*nodes):
@@ -304,14 +337,13 @@ def _worker(args):
             x = "%s:%s" % (exp[0], _kind(case, exp[1])) if exp else "none"
             par_k = _parent_kind(case, (exp or got)[1])
             prev = log[i - 1] if i > 0 else None
-            out.setdefault(("C18", "visit/events/in=%s/exp=%s/got=%s/edit=%s/chain=%d" % (par_k, x, g, rel(exp, got, prev), case["m"])),
+            out.setdefault(("C18", "%s/events/in=%s/exp=%s/got=%s/edit=%s/chain=%d" % (prefix, par_k, x, g, rel(exp, got, prev), case["m"])),
                            ["event log differs from the specification", dict(wit, index=i, expected=exp, got=got)])
         else:
             d = first_diff(res, b["resd"])
             i, got, exp = d
-            out.setdefault(("C18", "visit/tree/exp=%s/got=%s/edit=%s" % (_kind(case, exp), _kind(case, got), rel([0, exp], [0, got]))),
+            out.setdefault(("C18", "%s/tree/exp=%s/got=%s/edit=%s" % (prefix, _kind(case, exp), _kind(case, got), rel([0, exp], [0, got]))),
                            ["resulting tree differs from the specification", dict(wit, index=i)])
-    return out, n
 
 
 def _shards(shards):
